@@ -222,9 +222,9 @@ func (g *rtGen) config() cfgT {
 		for j := 0; j < nd; j++ {
 			var d string
 			switch k := r.Intn(100); {
-			case k < 4:
+			case k < 2:
 				d = r.PickS(oddDomains)
-			case k < 7: // anything, duplicates included
+			case k < 5: // anything, duplicates included
 				d = r.PickS(domainPool)
 			default:
 				for t := 0; t < 20; t++ {
@@ -247,12 +247,15 @@ func (g *rtGen) config() cfgT {
 		nr := r.Intn(7)
 		for j := 0; j < nr; j++ {
 			rt := g.route(fmt.Sprintf("v%dr%d", i, j))
-			if r.Pct(1) {
-				rt.Bad = true
-			}
 			vh.Routes = append(vh.Routes, rt)
 		}
 		c = append(c, vh)
+	}
+	if r.Pct(4) { // one route that NewRouteBase refuses
+		i := r.Intn(len(c))
+		if n := len(c[i].Routes); n > 0 {
+			c[i].Routes[r.Intn(n)].Bad = true
+		}
 	}
 	if r.Pct(6) { // default only
 		c = cfgT{{Name: "vh0", Domains: []string{r.PickS([]string{"*", "*:*"})}, Routes: c[0].Routes}}
